@@ -146,7 +146,7 @@ func (b *Built) AllKeys() []*Key {
 
 // ---------- random plans ----------
 
-func (d *Drv) pickKeys(n int) []*Key {
+func (d *Drv) PickKeys(n int) []*Key {
 	perm := d.C.Rng.Perm(len(d.W.P.Keys))
 	var out []*Key
 	for _, i := range perm {
@@ -167,7 +167,7 @@ func (d *Drv) pickKeys(n int) []*Key {
 	return out
 }
 
-func (d *Drv) randUnsigned() Unsigned {
+func (d *Drv) RandUnsigned() Unsigned {
 	c := d.C
 	ty := byte(types.InvokeNeo)
 	if c.Intn(6) == 0 {
@@ -177,15 +177,15 @@ func (d *Drv) randUnsigned() Unsigned {
 }
 
 // randSet: single key or m-of-n; signers are a random m-subset in random order.
-func (d *Drv) randSet(maxN int) *SetPlan {
+func (d *Drv) RandSet(maxN int) *SetPlan {
 	c := d.C
 	if maxN < 2 || c.Intn(2) == 0 {
-		k := d.pickKeys(1)
+		k := d.PickKeys(1)
 		return &SetPlan{Keys: k, M: 1, Signers: k}
 	}
 	n := 2 + c.Intn(maxN-1)
 	m := 1 + c.Intn(n)
-	keys := d.pickKeys(n)
+	keys := d.PickKeys(n)
 	perm := c.Rng.Perm(n)
 	var signers []*Key
 	for _, i := range perm[:m] {
@@ -194,10 +194,10 @@ func (d *Drv) randSet(maxN int) *SetPlan {
 	return &SetPlan{Keys: keys, M: m, Signers: signers}
 }
 
-func (d *Drv) randPlan(nsets, maxN int) *Plan {
-	pl := &Plan{U: d.randUnsigned()}
+func (d *Drv) RandPlan(nsets, maxN int) *Plan {
+	pl := &Plan{U: d.RandUnsigned()}
 	for i := 0; i < nsets; i++ {
-		pl.Sets = append(pl.Sets, d.randSet(maxN))
+		pl.Sets = append(pl.Sets, d.RandSet(maxN))
 	}
 	if nsets > 0 {
 		pl.PayerSet = d.C.Intn(nsets)
@@ -231,7 +231,25 @@ var defects = []string{"wrong-hash", "foreign-key", "dup-signature", "too-few", 
 func (d *Drv) Defect(b *Built, name string) (raw []byte, expect string) {
 	c := d.C
 	pl := b.Plan
-	si := c.Intn(len(pl.Sets))
+	var fit []int
+	for i, x := range pl.Sets {
+		switch name {
+		case "dup-signature":
+			if x.M >= 2 {
+				fit = append(fit, i)
+			}
+		case "all-n-sign":
+			if len(x.Keys) >= 2 && x.M < len(x.Keys) {
+				fit = append(fit, i)
+			}
+		default:
+			fit = append(fit, i)
+		}
+	}
+	if len(fit) == 0 {
+		return nil, ""
+	}
+	si := fit[c.Intn(len(fit))]
 	sp := pl.Sets[si]
 	sigs := append([][]byte{}, b.Sigs[si]...)
 	j := c.Intn(sp.M)
@@ -507,43 +525,43 @@ func (d *Drv) structMutants(b *Built, name string, n int) {
 
 // ---------- the run ----------
 
-func (d *Drv) one(kind string, pl *Plan, expect string) *Built {
+func (d *Drv) One(kind string, pl *Plan, expect string) *Built {
 	b := d.Assemble(pl)
 	d.DoTx(Input{Kind: kind, Expect: expect}, b.Raw, b.AllKeys())
 	return b
 }
 
-func (d *Drv) kindKey(kind string, i int) *Key {
+func (d *Drv) KindKey(kind string, i int) *Key {
 	ks := d.W.P.ByKind[kind]
 	return ks[i%len(ks)]
 }
 
-func (d *Drv) single(k *Key) *Plan {
-	return &Plan{U: d.randUnsigned(), Sets: []*SetPlan{{Keys: []*Key{k}, M: 1, Signers: []*Key{k}}}}
+func (d *Drv) Single(k *Key) *Plan {
+	return &Plan{U: d.RandUnsigned(), Sets: []*SetPlan{{Keys: []*Key{k}, M: 1, Signers: []*Key{k}}}}
 }
 
 // Probes replays the witnesses of the two known crash classes on the implementation.
 func (d *Drv) Probes() {
 	// (a) Ethereum-style key, KECCAK-scheme signature cut to 10 bytes
-	k := d.kindKey("eth-secp256k1", 0)
-	b := d.Assemble(d.single(k))
+	k := d.KindKey("eth-secp256k1", 0)
+	b := d.Assemble(d.Single(k))
 	b.Sigs[0][0] = b.Sigs[0][0][:10]
 	b.encode()
 	d.DoTx(Input{Kind: "probe:eth-key-short-signature"}, b.Raw, b.AllKeys())
 	// (b) ECDSA key on sm2p256v1 in uncompressed form with a damaged Y, any in-range ECDSA signature
-	w := d.kindKey("ecdsa-sm2p256v1", 0)
+	w := d.KindKey("ecdsa-sm2p256v1", 0)
 	ser := UncompressedSer(w, true)
 	pb := program.NewProgramBuilder()
 	pb.PushBytes(ser)
 	pb.PushOpCode(neovm.CHECKSIG)
-	pl := &Plan{U: d.randUnsigned(), Sets: []*SetPlan{{Keys: []*Key{w}, M: 1, Signers: []*Key{w}, Script: pb.Finish()}}}
-	d.one("probe:off-curve-key", pl, "")
+	pl := &Plan{U: d.RandUnsigned(), Sets: []*SetPlan{{Keys: []*Key{w}, M: 1, Signers: []*Key{w}, Script: pb.Finish()}}}
+	d.One("probe:off-curve-key", pl, "")
 	// the same key in uncompressed form with the right Y: accepted (alternative key encoding)
 	pb2 := program.NewProgramBuilder()
 	pb2.PushBytes(UncompressedSer(w, false))
 	pb2.PushOpCode(neovm.CHECKSIG)
-	pl2 := &Plan{U: d.randUnsigned(), Sets: []*SetPlan{{Keys: []*Key{w}, M: 1, Signers: []*Key{w}, Script: pb2.Finish()}}}
-	d.one("uncompressed-key", pl2, "accept")
+	pl2 := &Plan{U: d.RandUnsigned(), Sets: []*SetPlan{{Keys: []*Key{w}, M: 1, Signers: []*Key{w}, Script: pb2.Finish()}}}
+	d.One("uncompressed-key", pl2, "accept")
 }
 
 func (d *Drv) eip155() {
@@ -577,22 +595,22 @@ type Base struct {
 // PrepareBases assembles the base transactions and names their byte strings (before the first
 // case is written, so that the many mutants can refer to the unchanged parts by name).
 func (d *Drv) PrepareBases() []Base {
-	p256 := d.kindKey("ecdsa-p256", 1)
+	p256 := d.KindKey("ecdsa-p256", 1)
 	specs := []struct {
 		name string
 		pl   *Plan
 		step int
 	}{
-		{"single-p256", d.single(p256), 1},
-		{"single-ed25519", d.single(d.kindKey("ed25519", 1)), 3},
-		{"single-eth", d.single(d.kindKey("eth-secp256k1", 1)), 2},
-		{"single-sm2", d.single(d.kindKey("sm2-sm2p256v1", 1)), 3},
-		{"single-secp256k1", d.single(d.kindKey("ecdsa-secp256k1", 1)), 4},
-		{"2-of-3", &Plan{U: d.randUnsigned(), Sets: []*SetPlan{{Keys: []*Key{p256, d.kindKey("sm2-sm2p256v1", 2), d.kindKey("ecdsa-p224", 0)}, M: 2,
-			Signers: []*Key{d.kindKey("ecdsa-p224", 0), p256}}}}, 2},
-		{"two-sets", &Plan{U: d.randUnsigned(), Sets: []*SetPlan{
-			{Keys: []*Key{d.kindKey("ecdsa-p384", 0)}, M: 1, Signers: []*Key{d.kindKey("ecdsa-p384", 0)}},
-			{Keys: []*Key{d.kindKey("ed25519", 0), d.kindKey("ecdsa-p256-sha3", 0)}, M: 1, Signers: []*Key{d.kindKey("ecdsa-p256-sha3", 0)}}}}, 3},
+		{"single-p256", d.Single(p256), 1},
+		{"single-ed25519", d.Single(d.KindKey("ed25519", 1)), 3},
+		{"single-eth", d.Single(d.KindKey("eth-secp256k1", 1)), 2},
+		{"single-sm2", d.Single(d.KindKey("sm2-sm2p256v1", 1)), 3},
+		{"single-secp256k1", d.Single(d.KindKey("ecdsa-secp256k1", 1)), 4},
+		{"2-of-3", &Plan{U: d.RandUnsigned(), Sets: []*SetPlan{{Keys: []*Key{p256, d.KindKey("sm2-sm2p256v1", 2), d.KindKey("ecdsa-p224", 0)}, M: 2,
+			Signers: []*Key{d.KindKey("ecdsa-p224", 0), p256}}}}, 2},
+		{"two-sets", &Plan{U: d.RandUnsigned(), Sets: []*SetPlan{
+			{Keys: []*Key{d.KindKey("ecdsa-p384", 0)}, M: 1, Signers: []*Key{d.KindKey("ecdsa-p384", 0)}},
+			{Keys: []*Key{d.KindKey("ed25519", 0), d.KindKey("ecdsa-p256-sha3", 0)}, M: 1, Signers: []*Key{d.KindKey("ecdsa-p256-sha3", 0)}}}}, 3},
 	}
 	var out []Base
 	pool := d.W.P
@@ -624,14 +642,14 @@ func (d *Drv) Generate(bases []Base) {
 
 	// 1. every pool key alone (all key types and signature shapes)
 	for _, k := range pool.Keys {
-		d.one("single:"+k.Kind, d.single(k), "accept")
+		d.One("single:"+k.Kind, d.Single(k), "accept")
 	}
 	// 2. 1..16 signature sets, then random plans
 	for n := 1; n <= 16; n++ {
-		d.one("sets", d.randPlan(n, 2+6/n), "accept")
+		d.One("sets", d.RandPlan(n, 2+6/n), "accept")
 	}
 	for i, n := 0, c.N(24, 400); i < n; i++ {
-		d.one("random-plan", d.randPlan(1+c.Intn(4), 2+c.Intn(6)), "accept")
+		d.One("random-plan", d.RandPlan(1+c.Intn(4), 2+c.Intn(6)), "accept")
 	}
 	// 3. m-of-n on the boundary: every n in 2..16 with m in {1, n}, one 16-of-16 x 2 sets
 	for n := 2; n <= 16; n++ {
@@ -639,46 +657,50 @@ func (d *Drv) Generate(bases []Base) {
 			if n > 8 && m == n && c.Quick() && n != 16 {
 				continue
 			}
-			keys := d.pickKeys(n)
+			keys := d.PickKeys(n)
 			perm := c.Rng.Perm(n)
 			var signers []*Key
 			for _, i := range perm[:m] {
 				signers = append(signers, keys[i])
 			}
-			d.one(fmt.Sprintf("m-of-n:%d-of-%d", m, n), &Plan{U: d.randUnsigned(), Sets: []*SetPlan{{Keys: keys, M: m, Signers: signers}}}, "accept")
+			d.One(fmt.Sprintf("m-of-n:%d-of-%d", m, n), &Plan{U: d.RandUnsigned(), Sets: []*SetPlan{{Keys: keys, M: m, Signers: signers}}}, "accept")
 		}
 	}
 	// 4. special sets
 	{
 		// unsorted key order in the script (accepted; the address is that of the sorted script)
-		keys := d.pickKeys(3)
-		sorted := types.AddressFromPubKey // placeholder to keep imports tidy
-		_ = sorted
+		keys := d.PickKeys(3)
 		for _, order := range [][]int{{0, 1, 2}, {2, 1, 0}, {1, 2, 0}} {
 			ks := []*Key{keys[order[0]], keys[order[1]], keys[order[2]]}
-			d.one("unsorted-multisig", &Plan{U: d.randUnsigned(), Sets: []*SetPlan{{Keys: ks, M: 2, Unsorted: true, Signers: ks[:2]}}}, "accept")
+			d.One("unsorted-multisig", &Plan{U: d.RandUnsigned(), Sets: []*SetPlan{{Keys: ks, M: 2, Unsorted: true, Signers: ks[:2]}}}, "accept")
 		}
 		// twin keys: the ECDSA and the SM2 key of one point; the ECDSA signature verifies under both
 		a := pool.ByKind["ecdsa-sm2p256v1"][0]
 		tw := pool.ByKind["sm2-twin-of-ecdsa"][0]
-		d.one("twin-keys", &Plan{U: d.randUnsigned(), Sets: []*SetPlan{{Keys: []*Key{a, tw}, M: 2, Signers: []*Key{a, tw}}}}, "accept")
-		d.one("twin-keys-one-signer-twice", &Plan{U: d.randUnsigned(), Sets: []*SetPlan{{Keys: []*Key{a, tw}, M: 2, Unsorted: true, Signers: []*Key{a, a}}}}, "")
-		d.one("twin-single-signed-by-twin", &Plan{U: d.randUnsigned(), Sets: []*SetPlan{{Keys: []*Key{tw}, M: 1, Signers: []*Key{a}}}}, "")
+		d.One("twin-keys", &Plan{U: d.RandUnsigned(), Sets: []*SetPlan{{Keys: []*Key{a, tw}, M: 2, Signers: []*Key{a, tw}}}}, "accept")
+		d.One("twin-keys-one-signer-twice", &Plan{U: d.RandUnsigned(), Sets: []*SetPlan{{Keys: []*Key{a, tw}, M: 2, Unsorted: true, Signers: []*Key{a, a}}}}, "")
+		d.One("twin-single-signed-by-twin", &Plan{U: d.RandUnsigned(), Sets: []*SetPlan{{Keys: []*Key{tw}, M: 1, Signers: []*Key{a}}}}, "")
 		// the same key twice in one script
-		k := d.pickKeys(2)
-		d.one("duplicate-key-in-script", &Plan{U: d.randUnsigned(), Sets: []*SetPlan{{Keys: []*Key{k[0], k[0], k[1]}, M: 2, Unsorted: true, Signers: []*Key{k[0], k[0]}}}}, "")
+		k := d.PickKeys(2)
+		d.One("duplicate-key-in-script", &Plan{U: d.RandUnsigned(), Sets: []*SetPlan{{Keys: []*Key{k[0], k[0], k[1]}, M: 2, Unsorted: true, Signers: []*Key{k[0], k[0]}}}}, "")
 		// Ethereum-style keys inside a multi-signature set
 		e := pool.ByKind["eth-secp256k1"]
-		d.one("eth-in-multisig", &Plan{U: d.randUnsigned(), Sets: []*SetPlan{{Keys: []*Key{e[0], e[1], k[1]}, M: 2, Signers: []*Key{e[1], e[0]}}}}, "accept")
+		d.One("eth-in-multisig", &Plan{U: d.RandUnsigned(), Sets: []*SetPlan{{Keys: []*Key{e[0], e[1], k[1]}, M: 2, Signers: []*Key{e[1], e[0]}}}}, "accept")
 		// no signature set at all; 17 sets (refused by the decoder)
-		d.one("no-sets", &Plan{U: d.randUnsigned()}, "reject")
-		d.one("17-sets", d.randPlan(17, 2), "")
+		d.One("no-sets", &Plan{U: d.RandUnsigned()}, "reject")
+		d.One("17-sets", d.RandPlan(17, 2), "")
 		d.eip155()
 	}
 	// 5. invalid by construction
 	for r, n := 0, c.N(4, 40); r < n; r++ {
 		for _, name := range defects {
-			pl := d.randPlan(1+c.Intn(3), 2+c.Intn(4))
+			pl := d.RandPlan(1+c.Intn(3), 2+c.Intn(4))
+			{ // always one m-of-n set with 2 <= m < n, so that every defect applies
+				n := 3 + c.Intn(3)
+				m := 2 + c.Intn(n-2)
+				keys := d.PickKeys(n)
+				pl.Sets[c.Intn(len(pl.Sets))] = &SetPlan{Keys: keys, M: m, Signers: append([]*Key{}, keys[n-m:]...)}
+			}
 			b := d.Assemble(pl)
 			raw, expect := d.Defect(b, name)
 			if expect == "" {
@@ -700,14 +722,14 @@ func (d *Drv) Generate(bases []Base) {
 	}
 	// 7. one large transaction: 16 sets, two of them 16-of-16
 	{
-		pl := d.randPlan(16, 3)
+		pl := d.RandPlan(16, 3)
 		for _, i := range []int{3, 11} {
-			keys := d.pickKeys(16)
+			keys := d.PickKeys(16)
 			pl.Sets[i] = &SetPlan{Keys: keys, M: 16, Signers: append([]*Key{}, keys...)}
 		}
 		save := d.AbsBudget
 		d.AbsBudget = 4
-		d.one("large", pl, "accept")
+		d.One("large", pl, "accept")
 		d.AbsBudget = save
 	}
 }
